@@ -7,6 +7,24 @@ _A_NOTE = ('Trusted: CrossHair 0.0.110 proxy semantics and path pruning, z3 5.1.
            'before a VIOLATION is printed.')
 
 CLAIMS = {
+    'C17': dict(
+        engine='A-crosshair',
+        technique='bounded symbolic execution of the real code (CrossHair + z3) for the core APIs; solver-enumerated bounded families (realise-then-untrace) for the text pipelines',
+        text=('For each of 52 call forms (fdl.build; repr / str; as_str_flattened both modes, as_dict_flattened, '
+              'history_per_leaf_parameter; graphviz render / render_diff; dump_json, Serialization, dump_yaml; build_diff '
+              'as old and as new, skeleton_from_diff; check_types, get_type_errors, get_config_errors, '
+              'check_baseline_style; new_codegen, auto_config_codegen, legacy codegen; select iteration / get / tag '
+              'iteration; debug.grep; cast, copy_with (plain and TaggedValue), deepcopy_with, copy, deepcopy; '
+              'materialize_tags in three forms, list_tags; clear_argument_history; trimmed, with_defaults_trimmed both '
+              'flags, depth_over, structure, trim_fields_to, trim_long_fields; unintern_tuples_of_literals, '
+              'replace_unconfigured_partials_with_callables; daglish.iterate, identity rebuild; ==; ordered_arguments; '
+              'and follow-up tag / argument edits on a returned copy) and every member of two configuration families '
+              '(positional-only / *args arguments with value-less tags; keyword-only with valued tags; both with '
+              'shared nodes and containers, a 100-character string directly and inside lists, tuples of literals, a '
+              'Buildable with no arguments but a tag, Config / Partial kinds, child targets solver-enumerated): the '
+              'canonical form of the input (callables, arguments, tags, sharing) and the identity set of its mutable '
+              'objects are the same before and after, whether the API returns or raises.'),
+        note=_A_NOTE + ' Text pipelines (printers, graphviz, yaml, json text, diff, code generators, grep, trim_long_fields) run with realised selectors under NoTracing: solver-enumerated family, concrete leaves.'),
     'C20': dict(
         engine='A-crosshair',
         technique='bounded symbolic execution of the real code (CrossHair + z3); built-graph canonical forms before / after each transformation',
